@@ -45,13 +45,22 @@ def meta_from_lines(lines):
             ops.append(("raw", bytes.fromhex(t[2]) if t[2] != "-" else b""))
         elif t[0] == "getdata":
             ops.append(("data",))
+        elif t[0] == "load":
+            # the string table (section 2) of a loaded image: what the file holds for it
+            import elfimg
+            im = elfimg.decode(bytes.fromhex(t[3]))
+            table = (im.sections[2]["data"] or b"") if im is not None and len(im.sections) > 2 else b""
+            ops.append(("raw", table))
     return {"ops": ops}
 
 
-def mk_case(cid, cfg, ops, handle=False):
+def mk_case(cid, cfg, ops, handle=False, loaded=None):
     """[handle]: every lookup and addition goes through ONE accessor object created at the start and kept alive
     (otherwise a new accessor is made for each operation)"""
     lines = ["ctor plain", "create %s %s" % cfg, "addsec " + hx(b".strtab"), "secset 2 type 3"] + (["strnew 0 2"] if handle else [])
+    if loaded is not None:
+        # [loaded] = (image bytes, lazy): the string table is section 2 of an image loaded by file name
+        lines = ["ctor plain", "load file %d %s" % (loaded[1], hx(loaded[0]))] + (["strnew 0 2"] if handle else [])
     if handle:
         ops = [(("addk",) + o[1:2]) if o[0] == "add" else (("getk",) + o[1:2]) if o[0] == "get" else o for o in ops]
     for o in ops:
@@ -208,6 +217,30 @@ def generate(rng, tier):
                 ops.append(("get", len(tab) - len(sv) - 1))
         ops.append(("data",))
         cases.append(mk_case("k%d" % i, cfg, ops, handle=True))
+    # the string table of a LOADED image (eagerly or lazily, by file name), lying well behind the start of the file:
+    # looked up and extended as it is, or given new, shorter contents before anything has asked for its data
+    import elfimg
+    for i in range(40 if tier == "quick" else 400):
+        cfg = CFGS[i % 4]
+        parts = [rstr(rng) for _ in range(rng.randint(1, 6))]
+        orig = b"\0" + b"".join(p_ + b"\0" for p_ in parts)
+        secs = [dict(sname=b".fill", type=1, flags=0, addr=0, data=rbytes(rng, rng.choice([64, 300, 1000])), size=0, link=0, info=0, addralign=1, entsize=0),
+                dict(sname=b".strtab", type=3, flags=0, addr=0, data=orig, size=0, link=0, info=0, addralign=1, entsize=0)]
+        im, blob = elfimg.build(cfg[0], cfg[1], secs, [], rng)
+        ops = []
+        tab = orig
+        if i % 2 == 0:
+            # new contents first (set_data before any get_data)
+            np_ = [rstr(rng) for _ in range(rng.randint(0, 3))]
+            tab = b"\0" + b"".join(p_ + b"\0" for p_ in np_)
+            ops.append(("raw", tab))
+        for ix in sorted(set([0, 1, len(tab) - 1, len(tab)] + [rng.randint(0, len(tab)) for _ in range(3)])):
+            ops.append(("get", ix))
+        for j in range(rng.randint(1, 5)):
+            sv = rstr(rng); ops.append(("add", sv)); tab = tab + sv + b"\0"
+            ops.append(("get", len(tab) - len(sv) - 1)); ops.append(("get", 0))
+        ops.append(("data",))
+        cases.append(mk_case("l%d" % i, cfg, ops, handle=(i % 4 >= 2), loaded=(blob, 1 if i % 8 < 6 else 0)))
     return cases
 
 
